@@ -93,23 +93,47 @@ Definition assign (t : ty) (v : val) (p : path) (x : val) : option val :=
   | _, _ => None
   end.
 
+(* when the new value is itself an object (another xobject), the implementation may also copy it
+   as it is -- with the capacities of the SOURCE -- provided it has the same structure and its image
+   has exactly the length of the element it replaces ("the element becomes exactly the assigned value") *)
+Definition assign_exact (t : ty) (v : val) (p : path) (x : val) : option val :=
+  match vget v p, sub_ty t p with
+  | Some old, Some st =>
+      match retag old x, enc st old, enc st x with
+      | Some _, Some a, Some b => if len a =? len b then vset v p x else None
+      | _, _, _ => None
+      end
+  | _, _ => None
+  end.
+
 (* ---- judging an observed history ---- *)
 (* each step: the assignment attempted (None = a misuse the harness declares: out-of-range index,
-   wrong context, offset without buffer...), whether the implementation accepted it, the object's
+   wrong context, offset without buffer...), whether the new value was handed over as an object
+   (then the exact copy is acceptable too), whether the implementation accepted it, the object's
    bytes afterwards *)
-Record ustep := mkU { u_op : option (path * val); u_ok : bool; u_bytes : list Z }.
+Record ustep := mkU { u_op : option (path * val); u_exact : bool; u_ok : bool; u_bytes : list Z }.
+Definition img_is (t : ty) (v : val) (size : Z) (st : ustep) : bool :=
+  match layout_ok (mkLC t v (u_bytes st) size) with None => true | Some _ => false end.
 Fixpoint check_updates (t : ty) (v : val) (size : Z) (n : nat) (steps : list ustep) : option nat :=
   match steps with
   | [] => None
   | st :: tl =>
-    let expected := match u_op st with Some (p, x) => assign t v p x | None => None end in
-    match expected with
-    | Some v' =>
-        if u_ok st && match layout_ok (mkLC t v' (u_bytes st) size) with None => true | Some _ => false end
-        then check_updates t v' size (S n) tl else Some n
+    let e1 := match u_op st with Some (p, x) => assign t v p x | None => None end in
+    let e2 := if u_exact st then match u_op st with Some (p, x) => assign_exact t v p x | None => None end else None in
+    let refused := negb (u_ok st) && img_is t v size st in
+    match e1 with
+    | Some v1 =>
+        if u_ok st && img_is t v1 size st then check_updates t v1 size (S n) tl
+        else match e2 with
+             | Some v2 => if u_ok st && img_is t v2 size st then check_updates t v2 size (S n) tl else Some n
+             | None => Some n
+             end
     | None =>
-        if negb (u_ok st) && match layout_ok (mkLC t v (u_bytes st) size) with None => true | Some _ => false end
-        then check_updates t v size (S n) tl else Some n
+        match e2 with
+        | Some v2 => if u_ok st && img_is t v2 size st then check_updates t v2 size (S n) tl
+                     else if refused then check_updates t v size (S n) tl else Some n
+        | None => if refused then check_updates t v size (S n) tl else Some n
+        end
     end
   end.
 Record ucase := mkUC { uc_ty : ty; uc_val : val; uc_size : Z; uc_bytes0 : list Z; uc_steps : list ustep }.
